@@ -301,3 +301,222 @@ Lemma c19_partial_rates_drop_deny :
   = LDropped 1.
 Proof. eexists. split; vm_compute; reflexivity. Qed.
 Print Assumptions c19_partial_rates_drop_deny.
+
+(* ================================================================== *)
+(* C19 x C11: a Guard whose logger_sink is a DecisionLogger            *)
+(* (theories/AuditRedact.v)                                            *)
+(* ================================================================== *)
+(* The payload Guard._evaluate_core_async hands to logger_sink.log (engine.py:312-320) is
+   C11's [audit_payload env d]; its item list [audit_fields env d] is the `payload` of
+   every theorem above.  [eval_logged S relh oblig strict policy req resolved st c u size]
+   = (the answer of guard_eval, the logger's records: one [log c (audit_fields env d) u size]
+   when the evaluation returned a Decision d on the built env, none otherwise).
+   Imported here, after the statements above, so that their short names keep meaning
+   the Redact model's. *)
+From Rbacx Require Import Cond Target Policy PolicySet Compiler Engine
+     PolicyProofs PolicySetProofs EngineProofs AuditRedact.
+
+(* ---------------- the bridge ---------------- *)
+Theorem c19_audit_payload_fields : forall env d,
+  audit_payload env d = VObj (audit_fields env d) /\
+  audit_fields env d =
+    [("env", env); ("decision", VStr (d_effect d)); ("allowed", VBool (d_allowed d));
+     ("rule_id", match d_rule_id d with Some s => VStr s | None => VNull end);
+     ("policy_id", match d_policy_id d with Some v => v | None => VNull end);
+     ("reason", VStr (d_reason d)); ("obligations", VList (d_obligations d))].
+Proof. intros env d. split; [exact (audit_payload_fields env d)|reflexivity]. Qed.
+Print Assumptions c19_audit_payload_fields.
+
+(* whatever sinks `emit` is given, the one payload it logged, read by DecisionLogger(c).log,
+   is log c (audit_fields env d) *)
+Theorem c19_bridge_payload_is_log_argument : forall c u size lg inc env d,
+  records_of c u size (emit lg inc env d) = [log c (audit_fields env d) u size].
+Proof. exact bridge_payload_is_log_argument. Qed.
+Print Assumptions c19_bridge_payload_is_log_argument.
+
+Theorem c19_eval_logged_records :
+  forall S relh oblig strict policy req resolved st st' d env c u size,
+  guard_eval S relh oblig strict policy req resolved st = (GDecision d, st') ->
+  build_env strict req resolved = Some env ->
+  snd (eval_logged S relh oblig strict policy req resolved st c u size)
+  = [log c (audit_fields env d) u size].
+Proof. exact eval_logged_records. Qed.
+Print Assumptions c19_eval_logged_records.
+
+(* ---------------- the emitted record ---------------- *)
+(* every evaluation, every configuration, draw and size under which the record is emitted:
+   (a) the record is the audit payload of THE SAME Decision around another env: "decision",
+       "allowed", "rule_id", "policy_id", "reason", "obligations" unchanged, keys unchanged,
+       only "env" rebound — to the fail-closed marker (redaction raised), the size marker
+       (bound exceeded) or the redacted env;
+   (b) c19_secret_gone's conclusion under c19_secret_gone's hypothesis on that payload *)
+Theorem c19_logged_record_agrees_and_is_redacted :
+  forall (S : Type) (relh : rel_query -> S -> bool * S)
+         (oblig : raw -> value -> option (bool * option string))
+         strict policy req resolved (st st' : S) d env
+         c u size draws safe caller raised,
+  guard_eval S relh oblig strict policy req resolved st = (GDecision d, st') ->
+  build_env strict req resolved = Some env ->
+  log c (audit_fields env d) u size = LEmitted draws safe caller raised ->
+  (exists out, safe = audit_payload out d /\
+     ((raised = true /\ out = failed_marker /\
+       redact c (audit_fields env d) = RedRaised caller) \/
+      (raised = false /\ exists renv,
+         redact c (audit_fields env d) = RedOk renv caller /\
+         match c_max c, size with
+         | Some b, Some n => (n <= b -> out = VObj renv) /\ (b < n -> out = marker n)
+         | _, _ => out = VObj renv
+         end))) /\
+  get_key "decision" safe = VStr (d_effect d) /\
+  get_key "allowed" safe = VBool (d_allowed d) /\
+  get_key "rule_id" safe = match d_rule_id d with Some s => VStr s | None => VNull end /\
+  get_key "policy_id" safe = match d_policy_id d with Some v => v | None => VNull end /\
+  get_key "reason" safe = VStr (d_reason d) /\
+  get_key "obligations" safe = VList (d_obligations d) /\
+  map fst (dict_items safe) = map fst (audit_fields env d) /\
+  (forall s, secret_hyps s c (audit_fields env d) = true -> occurs s safe = false).
+Proof. exact logged_record_agrees_and_is_redacted. Qed.
+Print Assumptions c19_logged_record_agrees_and_is_redacted.
+
+(* c19_size_bound on the engine's payload, the record given as an audit payload *)
+Theorem c19_logged_size_bound : forall c env d u n b renv caller draws,
+  should_drop c (audit_fields env d) u = (false, draws) ->
+  redact c (audit_fields env d) = RedOk renv caller ->
+  c_max c = Some b ->
+  exists out, log c (audit_fields env d) u (Some n)
+              = LEmitted draws (audit_payload out d) caller false /\
+              (n <= b -> out = VObj renv) /\ (b < n -> out = marker n).
+Proof. exact logged_size_bound. Qed.
+Print Assumptions c19_logged_size_bound.
+
+(* c19_placeholder_at_path for ALL configured paths of the emitted record.  pos_of o = the
+   position a well-formed non-empty path denotes; paths_disjoint ops (boolean) = every path
+   is well formed and any two part at a dict key (neither is a prefix of, or equal to, the
+   other).  Specs that do not raise (TDone), record not replaced by the size marker. *)
+Theorem c19_logged_placeholders_at_paths :
+  forall strict req resolved env d c u size draws safe caller raised ops,
+  build_env strict req resolved = Some env ->
+  flatten (effective_specs c) = (ops, TDone) -> paths_disjoint ops = true ->
+  log c (audit_fields env d) u size = LEmitted draws safe caller raised ->
+  (forall b n, c_max c = Some b -> size = Some n -> n <= b) ->
+  raised = false /\
+  forall segs ph, In (segs, ph) ops -> get_segs segs (get_key "env" safe) = Some ph.
+Proof. exact logged_placeholders_at_paths. Qed.
+Print Assumptions c19_logged_placeholders_at_paths.
+
+(* DecisionLogger(use_default_redactions=True), `redactions` not given: in every record
+   emitted for an evaluation the eight redact paths read "[REDACTED]", context.ip "***" *)
+Theorem c19_logged_default_redactions :
+  forall strict req resolved env d c u size draws safe caller raised,
+  build_env strict req resolved = Some env ->
+  c_redactions c = None -> c_usedef c = true ->
+  log c (audit_fields env d) u size = LEmitted draws safe caller raised ->
+  (forall b n, c_max c = Some b -> size = Some n -> n <= b) ->
+  raised = false /\
+  (forall p, In p ["subject.attrs.password"; "subject.attrs.token"; "subject.attrs.mfa_code";
+                   "context.headers.authorization"; "context.cookies"; "resource.attrs.secret";
+                   "subject.attrs.email"; "subject.attrs.phone"] ->
+             get_segs (parse_path p) (get_key "env" safe) = Some (VStr "[REDACTED]")) /\
+  get_segs (parse_path "context.ip") (get_key "env" safe) = Some (VStr "***").
+Proof. exact logged_default_redactions. Qed.
+Print Assumptions c19_logged_default_redactions.
+
+(* ---------------- the caller's env and the returned decision ---------------- *)
+Theorem c19_caller_env_untouched_by_logging :
+  forall strict req resolved env d c u size draws safe caller raised,
+  build_env strict req resolved = Some env ->
+  c_inplace c = false ->
+  log c (audit_fields env d) u size = LEmitted draws safe caller raised ->
+  caller = Some env /\ build_env strict req resolved = Some env.
+Proof. exact caller_env_untouched_by_logging. Qed.
+Print Assumptions c19_caller_env_untouched_by_logging.
+
+Theorem c19_inplace_env_keeps_its_keys :
+  forall strict req resolved kvs d c u size draws safe caller raised,
+  build_env strict req resolved = Some (VObj kvs) ->
+  log c (audit_fields (VObj kvs) d) u size = LEmitted draws safe caller raised ->
+  exists kvs', caller = Some (VObj kvs') /\ map fst kvs' = map fst kvs.
+Proof. exact inplace_env_keeps_its_keys. Qed.
+Print Assumptions c19_inplace_env_keeps_its_keys.
+
+(* the answer of the evaluation does not depend on the logger: configuration, draw (dropped
+   or emitted), size, redaction raising or in place *)
+Theorem c19_logging_inert :
+  forall S relh oblig strict policy req resolved st c u size,
+  fst (eval_logged S relh oblig strict policy req resolved st c u size)
+  = guard_eval S relh oblig strict policy req resolved st.
+Proof. exact logging_inert. Qed.
+Print Assumptions c19_logging_inert.
+
+(* ---------------- sampling in terms of the Decision ---------------- *)
+Theorem c19_category_of_evaluated_decision :
+  forall S relh oblig strict policy req resolved (st st' : S) d env,
+  guard_eval S relh oblig strict policy req resolved st = (GDecision d, st') ->
+  category (audit_fields env d)
+  = (if negb (d_allowed d) then "deny"
+     else match d_obligations d with [] => "permit" | _ => "permit_with_obligations" end).
+Proof. exact category_of_evaluated_decision. Qed.
+Print Assumptions c19_category_of_evaluated_decision.
+
+Theorem c19_denies_and_obliged_permits_always_logged :
+  forall (S : Type) (relh : rel_query -> S -> bool * S)
+         (oblig : raw -> value -> option (bool * option string))
+         strict policy req resolved (st st' : S) d env c u size,
+  guard_eval S relh oblig strict policy req resolved st = (GDecision d, st') ->
+  build_env strict req resolved = Some env ->
+  c_smart c = true -> c_strategy c = default_strategy -> in_unit u ->
+  d_effect d = "deny" \/ d_allowed d = false \/ d_obligations d <> [] ->
+  should_drop c (audit_fields env d) u = (false, 1%nat) /\
+  (forall k, log c (audit_fields env d) u size <> LDropped k) /\
+  (snd (flatten (effective_specs c)) <> TOod ->
+   exists safe caller raised,
+     log c (audit_fields env d) u size = LEmitted 1 safe caller raised /\
+     snd (eval_logged S relh oblig strict policy req resolved st c u size)
+     = [LEmitted 1 safe caller raised]).
+Proof. exact denies_and_obliged_permits_always_logged. Qed.
+Print Assumptions c19_denies_and_obliged_permits_always_logged.
+
+Theorem c19_plain_permit_sampled_at_rate :
+  forall S relh oblig strict policy req resolved (st st' : S) d env c,
+  guard_eval S relh oblig strict policy req resolved st = (GDecision d, st') ->
+  c_strategy c = default_strategy ->
+  d_allowed d = true -> d_obligations d = [] ->
+  category (audit_fields env d) = "permit" /\ eff_rate c (audit_fields env d) = c_rate c.
+Proof. exact plain_permit_sampled_at_rate. Qed.
+Print Assumptions c19_plain_permit_sampled_at_rate.
+
+Theorem c19_legacy_rate0_logs_nothing :
+  forall S relh oblig strict policy req resolved (st st' : S) d env c u size,
+  guard_eval S relh oblig strict policy req resolved st = (GDecision d, st') ->
+  build_env strict req resolved = Some env ->
+  c_smart c = false -> f_le (c_rate c) nv_zero = true ->
+  eval_logged S relh oblig strict policy req resolved st c u size = ((GDecision d, st'), [LDropped 0]).
+Proof. exact legacy_rate0_logs_nothing. Qed.
+Print Assumptions c19_legacy_rate0_logs_nothing.
+
+(* ---------------- non-vacuity ---------------- *)
+(* ar_policy: permit read on doc with an MFA obligation (r1); ar_req: context with
+   headers.authorization = "Bearer S3CR3T", headers.accept, ip, mfa; the logger is
+   DecisionLogger(use_default_redactions=True, smart_sampling=True, sample_rate=0).
+   ar_record (theories/AuditRedact.v) is the full record: decision fields of ar_decision,
+   "[REDACTED]" at context.headers.authorization, "***" at context.ip *)
+Example c19_audit_example :
+  exists c, init ar_kwargs = Some c /\
+  guard_eval unit (relh_pure (fun _ => false)) builtin_oblig false ar_policy ar_req None tt
+    = (GDecision ar_decision, tt) /\
+  build_env false ar_req None = Some ar_env /\
+  eval_logged unit (relh_pure (fun _ => false)) builtin_oblig false ar_policy ar_req None tt c ar_half None
+    = ((GDecision ar_decision, tt), [LEmitted 1 ar_record (Some ar_env) false]) /\
+  get_segs (parse_path "context.headers.authorization") (get_key "env" ar_record)
+    = Some (VStr "[REDACTED]") /\
+  get_key "decision" ar_record = VStr (d_effect ar_decision) /\
+  get_key "allowed" ar_record = VBool (d_allowed ar_decision) /\
+  get_key "rule_id" ar_record = VStr "r1" /\
+  get_key "reason" ar_record = VStr (d_reason ar_decision) /\
+  occurs ar_secret ar_env = true /\ occurs ar_secret ar_record = false /\
+  secret_hyps ar_secret c (audit_fields ar_env ar_decision) = true /\
+  decision_class ar_decision = "permit_with_obligations" /\
+  in_unit ar_half.
+Proof. exact ar_example. Qed.
+Example c19_audit_example_tree_ok : tree_ok ar_policy.
+Proof. exact ar_tree_ok. Qed.
